@@ -345,6 +345,32 @@ def reachable_mask(rs: dict) -> list[list[bool]]:
     return [[idx[(ri, oi)] in seen for oi in range(len(r))] for ri, r in enumerate(routine_ops)]
 
 
+def locally_reachable_mask(rs: dict) -> list[list[bool]]:
+    """Per op: reachable from the first op of its *own* routine using only successors inside that routine."""
+    pos = {o[0]: (ri, oi) for ri, r in enumerate(rs["routines"]) for oi, o in enumerate(r["ops"])}
+    out = []
+    for ri, r in enumerate(rs["routines"]):
+        ops = r["ops"]
+        seen: set[int] = set()
+        stack = [0] if ops else []
+        while stack:
+            i = stack.pop()
+            if i in seen or i >= len(ops):
+                continue
+            seen.add(i)
+            _off, name, ps = ops[i]
+            if name in OPS_WITH_JUMP_TO_MEM_OFFSET:
+                t = pos.get(ps[OPS_WITH_JUMP_TO_MEM_OFFSET[name]])
+                if t is not None and t[0] == ri:
+                    stack.append(t[1])
+                if name != JUMP:
+                    stack.append(i + 1)
+            elif name not in STOP_OPS:
+                stack.append(i + 1)
+        out.append([i in seen for i in range(len(ops))])
+    return out
+
+
 # ------------------------------------------------------------------------------------------------ op classes (alphabet)
 
 ALPHABET_FULL = ("plain", "flag", "ctx", "branch", "jump", "call", "switch", "case", "msw", "casetext", "deftext", "Return", "End", "Hold")
@@ -928,6 +954,9 @@ def aimed_shapes() -> list[tuple[str, list[list[tuple]]]]:
         ("msw-in-if", [[br(4), ms, ct, dt, R]]),
         ("case-jumps-into-own-switch", [[sw, ca(0), R]]),
         ("two-switches-shared-case-body", [[sw, ca(5), sw, ca(5), R, pl, R]]),
+        # op 0's "previous op" is read as rtn[-1]: an unreachable trailing context op makes the flow run through a leading Return
+        ("last-op-is-unreachable-ctx", [[R, pl, cx]]),
+        ("last-op-is-unreachable-ctx-2", [[H, pl, R, cx]]),
         ("switch-scenario-casescenario", [[("swscn",), ("casescn", (0, 3)), R, pl, R]]),
         ("switch-menu", [[("swmenu",), ("casemenu", (0, 4)), ("casemenu2", (0, 6)), R, pl, jp(7), pl, R]]),
         ("switch-menu-default", [[("swmenu",), ("casemenu", (0, 3)), pl, pl, R]]),
